@@ -211,6 +211,83 @@ pub fn check_oversized_wire(n: usize, extra: usize, newline: bool) -> Vec<(&'sta
     }
 }
 
+/// Probe for an INFALLIBLE conversion `T -> Data<'static>` that may or may not exist on the tree under test (autoref
+/// specialisation: the first impl is chosen when `T: Into<Data>` holds, the second otherwise). After seed C01-w7-1,
+/// which replaced the five `From<&'static [u8; N]>` impls (N <= 4) by one const-generic impl without a length check.
+struct IntoProbe<T>(T);
+trait ViaInto {
+    fn build(&self) -> Option<Data<'static>>;
+}
+impl<T: Clone + Into<Data<'static>>> ViaInto for IntoProbe<T> {
+    fn build(&self) -> Option<Data<'static>> {
+        Some(self.0.clone().into())
+    }
+}
+trait NoConversion {
+    fn build(&self) -> Option<Data<'static>> {
+        None
+    }
+}
+impl<T> NoConversion for &IntoProbe<T> {}
+
+static B5: [u8; 5] = [9, 8, 7, 6, 5];
+static B16: [u8; 16] = [0x3C; 16];
+static B255: [u8; 255] = [0x11; 255];
+static B256: [u8; 256] = [0x22; 256];
+static B300: [u8; 300] = [0xA5; 300];
+static B65536: [u8; 65536] = [0x01; 65536];
+
+/// Whatever infallible conversions into `Data` exist for the listed source types: a block of at most 255 bytes must
+/// come out intact and round-trip in a frame; a longer one must not come out at all (a panic is a refusal).
+fn check_infallible_conversions() -> (u64, Vec<(&'static str, String, String)>) {
+    let mut out = vec![];
+    let mut existing = 0u64;
+    macro_rules! probe {
+        ($name:expr, $val:expr, $bytes:expr) => {{
+            let bytes: &[u8] = $bytes;
+            let r = catch(|| (&IntoProbe($val)).build());
+            match r {
+                Ok(None) => {}
+                Ok(Some(d)) => {
+                    existing += 1;
+                    let len = d.get().len();
+                    if len > 255 {
+                        out.push(("data-limit", "infallible-conversion-too-long".to_string(), format!("{} of {} bytes converts into a Data holding {} bytes", $name, bytes.len(), len)));
+                    } else if bytes.len() <= 255 && d.get().as_ref() != bytes {
+                        out.push(("data-limit", "infallible-conversion-alters".to_string(), format!("{} of {} bytes converts into different data", $name, bytes.len())));
+                    } else {
+                        let frame = Frame::new(Address(0x8001), MsgType(0x01), d);
+                        let ok = catch(|| Frame::from_bytes(&frame.to_bytes()).ok() == Some(frame.clone()) && Frame::from_bytes(&frame.to_bytes_with_newline()).ok() == Some(frame.clone()));
+                        if ok != Ok(true) {
+                            out.push(("round-trip", "infallible-conversion-frame".to_string(), format!("a frame around {} of {} bytes does not round-trip: {:?}", $name, bytes.len(), ok)));
+                        }
+                    }
+                }
+                Err(p) => {
+                    if bytes.len() <= 255 {
+                        existing += 1;
+                        out.push(("no-panic", p.class(), format!("converting {} of {} bytes panicked: {}", $name, bytes.len(), p.message)));
+                    }
+                }
+            }
+        }};
+    }
+    probe!("&'static [u8; 5]", &B5, &B5);
+    probe!("&'static [u8; 16]", &B16, &B16);
+    probe!("&'static [u8; 255]", &B255, &B255);
+    probe!("&'static [u8; 256]", &B256, &B256);
+    probe!("&'static [u8; 300]", &B300, &B300);
+    probe!("&'static [u8; 65536]", &B65536, &B65536);
+    for src in [&B5[..], &B255[..], &B256[..], &B300[..], &B65536[..]] {
+        probe!("&'static [u8]", src, src);
+        probe!("Vec<u8>", src.to_vec(), src);
+        probe!("Box<[u8]>", src.to_vec().into_boxed_slice(), src);
+        probe!("Cow<'static, [u8]> (borrowed)", std::borrow::Cow::Borrowed(src), src);
+        probe!("Cow<'static, [u8]> (owned)", std::borrow::Cow::<'static, [u8]>::Owned(src.to_vec()), src);
+    }
+    (existing, out)
+}
+
 pub fn check_from_array() -> Vec<(&'static str, String, String)> {
     let r = catch(|| {
         let ds: [(Data<'static>, &[u8]); 5] = [
@@ -222,11 +299,11 @@ pub fn check_from_array() -> Vec<(&'static str, String, String)> {
         ];
         ds.iter().all(|(d, s)| d.get().as_ref() == *s)
     });
+    let mut out = check_infallible_conversions().1;
     if r != Ok(true) {
-        vec![("data-limit", "from-array".into(), format!("From<&[u8;N]> wrong: {:?}", r))]
-    } else {
-        vec![]
+        out.push(("data-limit", "from-array".into(), format!("From<&[u8;N]> wrong: {:?}", r)));
     }
+    out
 }
 
 pub fn run(ctx: &Ctx) -> Report {
@@ -336,7 +413,8 @@ pub fn run(ctx: &Ctx) -> Report {
             }
         }
     }
-    limit_cases += 5;
+    limit_cases += 5 + 31;
+    rep.set("infallible_conversions_into_data_found_beyond_the_five_array_impls", json!(check_infallible_conversions().0));
     for (clause, class, detail) in check_from_array() {
         rep.violation(Violation::new(clause, class, detail, json!({"kind": "from_array"}), (3u64 << 40) + 1000));
     }
